@@ -97,6 +97,8 @@ class UpdateTaskState(Unit):
             "a join whose execution for the satisfied barrier is in flight on this route is not staged ready again by a further arriving branch (it runs once per satisfaction, not once per arrival)"},
         "C07.uts.ready_from_satisfied": {"props": ["C07"], "text":
             "the ready flag of a (re)staged non-command successor equals 'inbound criteria satisfied'"},
+        "C06.uts.ctx_inherited": {"props": ["C06", "C13"], "text":
+            "the context pointers the completing task had received are handed on: a newly staged successor's pointers start with the task's own (then the new delta), an already staged successor keeps its own and gains the task's non-root ones; a task re-staged for a retry is staged with exactly its record's pointers and back references (as copies)"},
         "C04.uts.cleanup_marked": {"props": ["C04", "C01"], "text":
             "every ready non-command task staged by a completing task that also takes a fail command is marked run_on_fail - whatever other commands (noop, continue) the task takes before or after the fail - so the documented clean-up tasks are still offered once the workflow has failed"},
         "C04.uts.run_on_fail_marking": {"props": ["C04", "C10"], "text":
@@ -201,14 +203,14 @@ class UpdateTaskState(Unit):
             wf_status = cases[e.choose(len(cases))]
 
             # ---------------- pre-state
-            sequence, tasks, staged, contexts = [], {}, [], [{"root": 1}]
+            sequence, tasks, staged, contexts = [], {}, [], [{"root": 1}, {"inherited": 1}]
             other_rec = {"id": "x0", "route": 0, "ctxs": {"in": [0]}, "prev": {}, "next": {"t__t0": True},
                          "status": st.SUCCEEDED}
             sequence.append(other_rec)
             tasks["x0__r0"] = 0
             rec = None
             if rec_c is not None:
-                rec = {"id": task_id, "route": 0, "ctxs": {"in": [0]}, "prev": {"x0__t0": 0}, "next": {},
+                rec = {"id": task_id, "route": 0, "ctxs": {"in": [0, 1]}, "prev": {"x0__t0": 0}, "next": {},
                        "status": rec_c}
                 if has_retry:
                     rec["retry"] = {"when": None if e.branch(S.mk_bool("when_none").z) else "<% w %>",
@@ -224,7 +226,7 @@ class UpdateTaskState(Unit):
             else:
                 stg_present = stg_c != "absent"
             if stg_present:
-                stg = {"id": task_id, "route": 0, "ctxs": {"in": [0]}, "prev": {"x0__t0": 0}, "ready": True}
+                stg = {"id": task_id, "route": 0, "ctxs": {"in": [0, 1]}, "prev": {"x0__t0": 0}, "ready": True}
                 if has_items:
                     stg["items"] = [{"status": S.mk_const("item%d" % i, st.ALL_STATUSES)} for i in range(2)]
                     for it in stg["items"]:
@@ -578,6 +580,19 @@ class UpdateTaskState(Unit):
                     new_ones = [q for q in idxs if isinstance(q, int) and q >= len(snap_ctx)]
                     mine = [i for i in true_idx if targets[i] == x["id"] and pub.get(i) == "delta"]
                     O("C06.uts.ctx_indices", len(new_ones) == len(mine) and (idxs.count(0) == 1))
+                    # what the completing task had received is handed on: a newly staged successor starts
+                    # from the task's own context pointers, an already staged one keeps its own and gains
+                    # the task's non-root ones
+                    mine_in = list(cur["ctxs"]["in"])
+                    before = snap_staged[id(x)]["ctxs"]["in"] if id(x) in snap_staged else None
+                    handed_on = all(q in idxs for q in mine_in if q != 0)
+                    prefix_ok = (idxs[:len(mine_in)] == mine_in) if before is None else (idxs[:len(before)] == before)
+                    O("C06.uts.ctx_inherited", handed_on and prefix_ok and idxs is not cur["ctxs"]["in"])
+            O("C06.uts.ctx_inherited", True)
+            if retried:
+                entry_ = [x for x in staged if x["id"] == task_id and x.get("retry") is not None][0]
+                O("C06.uts.ctx_inherited", entry_["ctxs"]["in"] == cur["ctxs"]["in"] and entry_["ctxs"]["in"] is not cur["ctxs"]["in"]
+                  and _same(e, entry_["prev"], cur["prev"]))
             # item status
             if kind == "item" and stg is not None and stg in staged:
                 items = stg.get("items")
